@@ -548,21 +548,39 @@ func Check(id, tier string) int {
 			knownHit[f.ID] += c.Count
 			continue
 		}
-		// confirm before believing: re-run 3x
+		// confirm before believing: re-run 3x; all three must fail again. If some
+		// replay passes, the code under test (not the harness: replays are
+		// deterministic functions of the case) behaves differently from run to run
+		// — e.g. it iterates over a Go map —; the case is then replayed up to 12
+		// times and believed when the failure shows at least twice more.
 		confirmed := true
 		if _, has := report.ReplayerFor(c.Kind); has && c.Class != "hang" && c.Class != "crash" { // (those were re-run alone already)
-			for k := 0; k < 3; k++ {
-				_, ok, err := report.Replay(c)
+			fails, runs, lastObs := 0, 0, ""
+			for k := 0; k < 12; k++ {
+				obs, ok, err := report.Replay(c)
 				if err != nil {
 					m.Internal = append(m.Internal, "replay error: "+err.Error()+" sig="+c.Sig)
 					confirmed = false
 					break
 				}
+				runs++
 				if ok {
-					m.Internal = append(m.Internal, "FLAKY-INTERNAL: violation did not reproduce on replay: sig="+c.Sig)
-					confirmed = false
+					lastObs = obs
+				} else {
+					fails++
+				}
+				if runs == 3 && fails == 3 {
 					break
 				}
+			}
+			switch {
+			case !confirmed:
+			case fails == runs:
+			case fails >= 2:
+				c.Note = strings.TrimSpace(c.Note + fmt.Sprintf(" non-deterministic under replay: failed %d of %d identical replays", fails, runs))
+			default:
+				m.Internal = append(m.Internal, fmt.Sprintf("FLAKY-INTERNAL: violation did not reproduce on replay (%d of %d): sig=%s expr=%s got=%s extra=%v replay-observed=%s", fails, runs, c.Sig, c.Expr, c.Got, c.Extra, lastObs))
+				confirmed = false
 			}
 		}
 		if !confirmed {
